@@ -16,13 +16,33 @@ CHECK = {
                             "exh_average_history_reset_mid_window", "exh_variance_history_reset_mid_window",
                             "exh_ring_history_reset_mid_window", "exh_ring_history_wrapped",
                             "ring_append_aliasing_own_entry", "ring_append_permuting_expr_of_evicted_entry",
-                            "exh_ring_append_permuting_expr_of_evicted_entry"],
+                            "exh_ring_append_permuting_expr_of_evicted_entry",
+                            # wave-3 cross-application classes
+                            "average_copied_or_assigned_mid_history", "variance_copied_or_assigned_mid_history",
+                            "stats_copy_continues_source_destroyed", "stats_copy_discarded_source_continues",
+                            "stats_copy_from_rvalue_continues_source_destroyed",
+                            "average_window_resized_while_empty", "variance_window_resized_while_empty",
+                            "average_setWindowSize_with_own_getter_reference", "variance_setWindowSize_with_own_getter_reference",
+                            "average_sibling_object_interleaved", "variance_sibling_object_interleaved",
+                            "ring_sibling_object_interleaved",
+                            "ring_copy_constructed_continues", "ring_copy_assigned_continues", "ring_move_constructed_continues",
+                            "ring_move_assigned_continues", "ring_self_assigned", "ring_copy_discarded_source_continues",
+                            "ring_append_reference_from_own_get", "ring_append_rvalue", "ring_references_kept_and_reread",
+                            "ring_items_extreme_inf_nan_denormal",
+                            "ring_element_type_6", "ring_element_type_7", "ring_element_type_8",
+                            "long_history", "long_history_2pow8_plus_k", "long_history_2pow16_plus_k",
+                            "long_history_average", "long_history_variance", "long_history_ring",
+                            "long_history_shape_0", "long_history_shape_1", "long_history_shape_2"],
     "required_oracles": ["average.vs_exact_mean", "variance.vs_exact_unbiased", "availability.iff_window_full",
-                         "ring.size_is_min_n_capacity", "ring.kth_most_recent"],
+                         "ring.size_is_min_n_capacity", "ring.kth_most_recent",
+                         "copy.shows_same_as_source", "copy.independent_of_other_object", "stability.shown_state",
+                         "ring.copy_holds_same_items", "ring.references_stable", "ring.accessors_consistent"],
     "required_counters": ["average_updates", "average_resets", "variance_updates", "variance_resets",
-                          "ring_updates", "ring_resets", "ring_alias_appends", "exhaustive_sequences", "samples_generated"],
+                          "ring_updates", "ring_resets", "ring_alias_appends", "exhaustive_sequences", "samples_generated",
+                          "average_copy_events", "variance_copy_events", "ring_copy_events", "average_window_resizes",
+                          "variance_window_resizes", "ring_reference_rereads", "long_history_operations"],
     "rule": "case = one object (OnlineAverage W 1..64 | OnlineVariance W 2..64 | RingOfEigenVector capacity 1..16 over "
-            "Vector2d/3d/4d/6d/2f/3f) driven through one generated history of update/reset (append/clear) of length 0..10W, "
+            "Vector2d/3d/4d/6d/Xd(5), Vector2f/3f/4f, Vector3i) driven through one generated history of update/reset (append/clear) of length 0..10W, "
             "checked against the reference model after EVERY operation; 35 % of the appends on a non-empty ring pass an argument "
             "that aliases the ring's own state -- ring[k] by reference or an unevaluated Eigen expression (reverse, cyclic shift, "
             "-ring[k], ring[k]+ring[j], 2*ring[k], ring[k].reverse()+ring[j]), k = the oldest (evicted) entry 45 % of the time; "
@@ -35,13 +55,31 @@ CHECK = {
             "sample has |x|/precision <= 1e8 and x*m either an exact integer or >= 1e-6 away from every non-zero integer; "
             "case indices 0..647 are the small-scope exhaustive part: all 3^7 sequences over {update a, update b, reset} "
             "for W <= 3 (27 sequences per index); non-trivial = the history wraps the window (n > W) or has a reset/clear "
-            "after data followed by new data -- the unit test does neither",
-    "level_text": "exploration: the real OnlineAverage / OnlineVariance / RingOfEigenVector are driven through 2e4 (quick) / "
+            "after data followed by new data -- the unit test does neither; "
+            "ON TOP of each history, from a separate random stream: update()/append() called with lvalues, prvalues, xvalues and "
+            "clobbered locals; setWindowSize(getWindowSize()) mid-history (own member by reference); setWindowSize(W') with "
+            "another W' while the window is empty (before the first sample / right after / immediately before a reset), the "
+            "model continuing with W'; in 30 % of the histories one copy event at a random operation -- statistics: "
+            "copy-construction from an lvalue or an rvalue, then either the copy continues and the source is fed other data, "
+            "reset and destroyed, or the copy is abused and dropped; ring: copy-construct / copy-assign over a ring of another "
+            "capacity / move-construct / move-assign / self-assign / discarded copy; a sibling object of the same family "
+            "(other window, other precision / other capacity) driven between mutation and observation (10 % of operations) "
+            "and a temporary third object created and destroyed; references (getWindowSize(), ring[0], ring[size-1]) kept and "
+            "re-read; everything shown re-read at the end of the case; ring appends also take ring.get()[slot] / const "
+            "get().back(); 10 % of the ring histories carry items with +-max, +-min, denormal, signed-zero, +-inf and NaN "
+            "components (bit-exact comparison); 0.6 % of the case indices are long histories: one mutator repeated 2^8+k or "
+            "(indices >= 3000 only, the valgrind flavour replays the first 3000) 2^16+k times, k = 0..W+3, before the first "
+            "observation -- that many updates/appends, or a few samples then that many resets/clears, or alternating -- then "
+            "W+3 observed operations; magnitudes: the statement's own bound |x|/precision <= 1e8 is used (the unchanged "
+            "code's 64-bit sum of squares stays defined up to 3.76e8 at W = 64 and overflows -- UBSan -- at 3.77e8)",
+    "level_text": "exploration: the real OnlineAverage / OnlineVariance / RingOfEigenVector are driven through 1e5 (quick) / "
                   "5e6 (thorough) generated histories of update/reset (append/clear) plus all 3^7 depth-7 histories for W <= 3; "
                   "after every operation availability, average, variance and every ring entry are compared with a reference "
                   "model that keeps the whole history and recomputes mean and unbiased variance in exact __int128 arithmetic; "
                   "ASan+UBSan (signed overflow of the integer sums and scale factors, float-cast overflow) and libstdc++ "
-                  "assertions watch the same executions",
+                  "assertions watch the same executions; the same histories also exercise copies, moves, self-assignment, "
+                  "arguments aliasing the object's own state, sibling objects, kept references, window re-configuration on an "
+                  "empty window and 2^8 / 2^16-fold repetition of one mutator",
     "level_note": ASAN_NOTE,
     "technique": "runtime monitoring: sanitizer build + executable reference model (full history, exact integer arithmetic) "
                  "checked after every operation of generated and small-scope-exhaustive histories",
@@ -52,7 +90,17 @@ CHECK = {
                     "16 eps sum(x^2)/(W-1) (conditioning of sum(x^2) - n mean^2; first-order worst case of a direct evaluation is "
                     "4 eps sum(x^2)/(W-1)); neither grows with the history length",
                     "operator[] is only called for k < size(); the average is only read after at least one sample since the last reset; "
-                    "setWindowSize only before the first sample; single-threaded (concurrency is C19)",
+                    "single-threaded (concurrency is C19)",
+                    "setWindowSize(W') with a different W' is only called while the window is empty (before the first sample, right "
+                    "after or immediately before reset()); re-configuring a window that holds samples is outside the statement "
+                    "(it does not say which samples the new window should hold; the unchanged code then never becomes available "
+                    "again when shrinking and evicts out of order when growing) and is not generated",
+                    "the classes have no copy assignment (mutex member) and no move constructor: 'move' construction selects the "
+                    "copy constructor; copies are taken single-threaded",
+                    "ring references are only required to stay valid across const calls and activity on other objects, not across "
+                    "append()/clear() on the same ring; a moved-from ring is only destroyed or assigned to",
+                    "long histories exceed the 10 W of the statement's quantifier; they are kept because 'no accumulated drift' "
+                    "is exactly about them and the unchanged code passes",
                     "g++ 12 ASan+UBSan runtime; asserts live (no -DNDEBUG)"],
 }
 
